@@ -533,7 +533,7 @@ async fn proxy_tcp_connection_data_forwarding(
 
 /// Wrapper exposing the private destination reader to the verification harness.
 #[cfg(feature = "verif")]
-pub mod verif_api {
+pub mod verif_handler {
     use super::*;
     pub async fn read_socks_addr(stream: Arc<Stream>) -> Result<(String, u16)> {
         super::read_socks_addr(stream).await.map(|a| (a.addr, a.port))
